@@ -328,10 +328,16 @@ def cert_v1(rng, d: str, tier: str, want: dict) -> tuple[dict, dict, str]:
             k2 = kind
             if mixed:
                 k2 = want.get("leaf_kind") or rng.choice([k for k in ("rsa2048", "rsa3072", "rsa4096") if k != kind] if len(names) == depth - 1 else ["rsa2048", kind])
-            names.append(rng.choice([n for n in pki.names(k2) if n not in names and n not in roots]))
+            cands = [n for n in pki.names(k2) if n not in names and n not in roots]
+            if not cands:   # small pools (4 keys): a chain key may also be one of the OTHER root keys
+                cands = [n for n in pki.names(k2) if n not in names]
+            if not cands:
+                break
+            names.append(rng.choice(cands))
+        depth = len(names)
         if mixed and pki.kind_of(names[-1]) == kind:
             mixed = False
-        chain = runtime_chain(d, names)
+        chain = runtime_chain(d, names) if depth >= 2 else pki.chain(roots[used], 1)
     else:
         mixed = False
         chain = pki.chain(roots[used], depth)
@@ -479,9 +485,10 @@ def build(family: str, info: dict, rng, workdir: str, tier: str = "quick", want:
     length = spec(rng) if callable(spec) else spec
     content = want.get("content") or _pick_weighted(rng, [("random", 6), ("reloc_lookalike", 2), ("reserved_zero", 1), ("ones", 1)])
     b.app = make_payload(rng, length, content)
-    if m(mx, "MixinFcfObsolete") and len(b.app) > 0x40C and rng.random() < 0.85:
+    if m(mx, "MixinFcfObsolete") and len(b.app) > 0x40C and (rng.random() < 0.85 or "fcf_byte" in want):
         # a real DSC application has a valid life-cycle byte in its flash configuration field
-        b.app = b.app[:0x40C] + bytes([rng.choice(list(LIFECYCLES.values()))]) + b.app[0x40D:]
+        byte = want.get("fcf_byte", rng.choice(list(LIFECYCLES.values())))
+        b.app = b.app[:0x40C] + bytes([byte]) + b.app[0x40D:]
     b.payload_class = f"{pc}/{content}"
     app_path = os.path.join(d, "app.bin")
     _w(app_path, b.app)
